@@ -10,6 +10,7 @@ Driver ops for the XML text layer (`xml-…` lines of the C01 driver): command w
   xml-unesc        <hex>    → hex of `unesc`
   xml-render       <tree>   → hex of `render t`                      (byte-exact against QXmlStreamWriter)
   xml-render-parse <tree>   → canon of `qdomView (parse (render t))` (QDom, namespace processing on) | none
+  xml-canon        <tree>   → `canon t`                               (the encoding itself against vh::canonElement on a DOM built by API)
   xml-parse        <hexdoc> → canon of `qdomView (parse doc)` | none
   xml-parse-plain  <hexdoc> → canon of `parse doc` | none             (QDom, namespace processing off)
 
@@ -120,6 +121,10 @@ def step (line : String) : Option String :=
   | "xml-render-parse" =>
     some (match decodeTree w with
       | some t => showTree ((parse (render t)).map qdomView)
+      | none => "bad-tree")
+  | "xml-canon" =>
+    some (match decodeTree w with
+      | some t => canon t
       | none => "bad-tree")
   | "xml-parse" => some (onStr w fun s => showTree ((parse s).map qdomView))
   | "xml-parse-plain" => some (onStr w fun s => showTree (parse s))
